@@ -36,6 +36,8 @@ func main() {
 		{Name: "wal-block-edges-with-checkpoint-3pg-4ops", Cfg: "MC_DBFile_wal_L2b.cfg", Timeout: 10 * time.Minute, MaxKeep: 0, Need: "Ckpt", Layouts: []sim.Layout{sim.L2(512), sim.L3(512)}},
 		{Name: "wal-block-edges-3pg-3ops", Cfg: "MC_DBFile_wal_L2.cfg", Timeout: 10 * time.Minute, MaxKeep: 0, Layouts: []sim.Layout{sim.L2(512), sim.L3(512)}},
 		{Name: "rb-never-written-pages-4pg-3ops", Cfg: "MC_DBFile_holes.cfg", Timeout: 10 * time.Minute, MaxKeep: core.Pick(args, 700, 0), Layouts: []sim.Layout{sim.L0(512), sim.L0(4096)}},
+		// a committing transaction whose publication fails (LTX rename refused): SQLite rolls it back
+		{Name: "rb-commit-fails-at-publication-3pg-3ops", Cfg: "MC_DBFile_failcommit.cfg", Timeout: 10 * time.Minute, MaxKeep: core.Pick(args, 400, 0), Need: "JFinalFail"},
 		{Name: "deep-simulation-4pg-8ops", Cfg: "MC_DBFile_sim.cfg", Simulate: true, Num: core.Pick(args, 40, 400), Depth: 200, Timeout: 10 * time.Minute, MaxKeep: core.Pick(args, 150, 3000)},
 	})
 }
